@@ -1,7 +1,7 @@
 # C05 spec (see tools/props.py)
 SPEC = {
         "ready": True,
-        "sources": ["c05.cpp", "c05_exact_f.cpp", "c05_exact_d.cpp", "c05_det_f.cpp", "c05_det_d.cpp",
+        "sources": ["c05.cpp", "c05_alias.cpp", "c05_exact_f.cpp", "c05_exact_d.cpp", "c05_det_f.cpp", "c05_det_d.cpp",
                     "c05_round_f.cpp", "c05_round_d.cpp"],
         "lib": [],
         "technique": "exhaustive enumeration of integer lattices, prime-scaled basis-element pairs and 0/+-1 sparsity patterns "
